@@ -99,3 +99,13 @@ Definition check_1208 (fs : list field) : verdict :=
   | [FZ kind; FZ calls; FZ good] => if calls <=? 0 then VSkip else expect 4 (good =? 1) [FZ kind]
   | _ => VBad 99 []
   end.
+
+(* 1209: cutting (Value.MarshalTo; api 1 thrift, 2 proto; target 0 a cutting descriptor, 1 the source descriptor itself, 2 an
+   equal descriptor from a second parse). fields: api, target, the result as seen AFTER the caller filled the source value's
+   buffer with a pattern, the private copy of the result taken right after the call. A result that is a buffer of its own
+   (Pool.marshalto_ok: CopyOut) cannot change. *)
+Definition check_1209 (fs : list field) : verdict :=
+  match fs with
+  | [FZ api; FZ target; FB after; FB copy] => expect 9 (bytes_eqb after copy) [FZ api; FZ target; FB copy]
+  | _ => VBad 99 []
+  end.
